@@ -33,6 +33,8 @@ Inductive obj :=
 | OInt (z : Z) | OFloat (bits : Z) | OBytes (bs : list Z) | OText (cps : list Z) | OBool (b : bool) | ONone
 | OList (l : list obj) | OTuple (l : list obj) | OSet (l : list obj) | OFset (l : list obj)
 | ODict (ks vs : list obj)
+| ORemote (claim : list Z)  (* a RemoteReference as the receiver sees it: the interface NAME its sender claimed for it
+                               ([] = none); the receiver resolves the name through its own registry *)
 | OPending (k : nat).       (* the Deferred placeholder of the k-th enclosing tuple that is still being received; it is
                                replaced by that tuple when the tuple completes (a cycle through an immutable container) *)
 
@@ -44,7 +46,8 @@ Inductive ctr :=
 | CBool (v : option bool) | CNone
 | CList (c : ctr) (mx : option Z) (mn : Z) | CTuple (cs : list ctr)
 | CDict (k v : ctr) (mk : option Z) | CSet (c : ctr) (mx : option Z) (mut : option bool)
-| CChoice (cs : list ctr) | COpt (c : ctr).
+| CChoice (cs : list ctr) | COpt (c : ctr)
+| CRemote (iface : option (list Z)).   (* RemoteInterfaceConstraint, inbound side: the declared interface's name, None = any *)
 
 Definition int_ok (mb : option Z) (z : Z) : bool := is_ok (int_check z mb).
 
@@ -94,6 +97,11 @@ Fixpoint checkObject (c : ctr) (o : obj) {struct c} : bool :=
       end
   | CChoice cs => existsb (fun c1 => checkObject c1 o) cs
   | COpt _ => true
+  | CRemote iface =>       (* inbound: must be a RemoteReference; `not iface or iface != self.interface` -> Violation *)
+      match o with
+      | ORemote claim => match iface with None => true | Some d => negb (list_is_nil claim) && list_eqb claim d end
+      | _ => false
+      end
   end.
 
 (* ---- token level *)
@@ -126,7 +134,7 @@ Definition strict_of (c : ctr) : bool :=
   | CAny => strict_Any | CInt _ => strict_Int | CNumber _ => strict_Number | CBytes _ _ => strict_Bytes
   | CText _ _ => strict_Text | CBool _ => strict_Bool | CNone => strict_None | CList _ _ _ => strict_List
   | CTuple _ => strict_Tuple | CDict _ _ _ => strict_Dict | CSet _ _ _ => strict_Set
-  | CChoice _ => strict_Choice | COpt _ => strict_Opt
+  | CChoice _ => strict_Choice | COpt _ => strict_Opt | CRemote _ => strict_Remote
   end.
 
 Definition tv_ok (t : tv) : bool := match t with TOk => true | _ => false end.
@@ -144,13 +152,13 @@ Definition opentypes_of (c : ctr) : option (list otype) :=
   | CAny => opentypes_Any | CInt _ => opentypes_Int | CNumber _ => opentypes_Number | CBytes _ _ => opentypes_Bytes
   | CText _ _ => opentypes_Text | CBool _ => opentypes_Bool | CNone => opentypes_None | CList _ _ _ => opentypes_List
   | CTuple _ => opentypes_Tuple | CDict _ _ _ => opentypes_Dict | CSet _ _ _ => opentypes_Set
-  | CChoice _ => opentypes_Choice | COpt _ => opentypes_Opt
+  | CChoice _ => opentypes_Choice | COpt _ => opentypes_Opt | CRemote _ => opentypes_Remote
   end.
 
 Definition otype_eqb (a b : otype) : bool :=
   match a, b with
   | OtList, OtList | OtTuple, OtTuple | OtSet, OtSet | OtFset, OtFset | OtDict, OtDict
-  | OtUnicode, OtUnicode | OtBool, OtBool | OtNone, OtNone => true
+  | OtUnicode, OtUnicode | OtBool, OtBool | OtNone, OtNone | OtMyRef, OtMyRef | OtTheirRef, OtTheirRef => true
   | _, _ => false
   end.
 
@@ -171,12 +179,13 @@ Inductive wobj :=
 Inductive child :=
 | ChList (ic : option ctr) (mx : option Z) | ChTuple (cs : option (list ctr))
 | ChDict (kv : option (ctr * ctr)) (mk : option Z) | ChSet (ic : option ctr) (mx : option Z)
-| ChFset (ic : option ctr) (mx : option Z) | ChText (mx : option Z) | ChBool (v : option bool) | ChNone.
+| ChFset (ic : option ctr) (mx : option Z) | ChText (mx : option Z) | ChBool (v : option bool) | ChNone | ChMyRef.
 
 Definition free_child (ot : otype) : child :=
   match ot with
   | OtList => ChList None None | OtTuple => ChTuple None | OtDict => ChDict None None | OtSet => ChSet None None
   | OtFset => ChFset None None | OtUnicode => ChText None | OtBool => ChBool None | OtNone => ChNone
+  | OtMyRef | OtTheirRef => ChMyRef          (* their-reference (gifts) is not modelled beyond its opentype *)
   end.
 
 (* parent.doOpen: `unslicer.setConstraint(c)`.  None = the isinstance assertion fails (AssertionError escapes
@@ -187,6 +196,7 @@ Definition child_of (ot : otype) (oc : option ctr) : option child :=
   | Some c =>
       match ot, c with
       | OtNone, _ => Some ChNone                        (* BaseUnslicer.setConstraint: pass *)
+      | OtMyRef, _ | OtTheirRef, _ => Some ChMyRef      (* referenceable.ReferenceUnslicer has no setConstraint either *)
       | _, CAny => Some (free_child ot)                 (* isinstance(constraint, Any): return *)
       | OtList, CList ic mx _ => Some (ChList (Some ic) mx)
       | OtTuple, CTuple cs => Some (ChTuple (Some cs))
@@ -281,6 +291,19 @@ Definition kids_with (f : option ctr -> wobj -> rv) (ch : child) : list wobj -> 
         end
     end.
 
+(* referenceable.ReferenceUnslicer: clid (INT/NEG), optional interface name, optional url (ByteStringConstraint() each) *)
+Definition recv_myref (kids : list wobj) : rv :=
+  match kids with
+  | [WInt tb _ _] => if (tb =? tok_INT) || (tb =? tok_NEG) then RDeliver (ORemote []) else RAbort
+  | WInt tb _ _ :: WStr _ _ name :: rest =>
+      if negb ((tb =? tok_INT) || (tb =? tok_NEG)) then RAbort
+      else match rest with
+           | [] | [WStr _ _ _] => RDeliver (ORemote name)
+           | _ => RViol
+           end
+  | _ => RAbort
+  end.
+
 (* what the receiver does with one object arriving in a slot governed by oc *)
 Fixpoint recvw (oc : option ctr) (w : wobj) {struct w} : rv :=
   match w with
@@ -307,6 +330,7 @@ Fixpoint recvw (oc : option ctr) (w : wobj) {struct w} : rv :=
                    | ChText mx => recv_text mx kids
                    | ChBool v => recv_bool v kids
                    | ChNone => match kids with [] => RDeliver ONone | _ => RAbort end
+                   | ChMyRef => recv_myref kids
                    | _ =>
                        match kids_with recvw ch kids O with
                        | KOk l => RDeliver (build ch l)
@@ -350,6 +374,7 @@ Fixpoint slice (voc : list (list Z)) (o : obj) : wobj :=
   | OSet l => WOpen OtSet (map (slice voc) l)
   | OFset l => WOpen OtFset (map (slice voc) l)
   | ODict ks vs => WOpen OtDict (interleave (map (slice voc) ks) (map (slice voc) vs))
+  | ORemote name => WOpen OtMyRef [WInt tok_INT 0 0; WStr false (zlen name) name]   (* receiver's view only, see owf *)
   | OPending k => WRef (OPending k)
   end.
 
@@ -531,6 +556,7 @@ Fixpoint owf (o : obj) : bool :=
   | OList l | OTuple l | OSet l | OFset l => forallb owf l
   | ODict ks vs => (List.length ks =? List.length vs)%nat && forallb owf ks && forallb owf vs
   | OPending _ => false                      (* cyclic values are outside the honest-sender theorems *)
+  | ORemote _ => false                       (* the outbound side of RemoteInterfaceConstraint (Referenceables) is not modelled *)
   | _ => true
   end.
 
